@@ -154,7 +154,11 @@ def micro(v):
     return [-1 if not np.isfinite(x) else int(round(x * 1e6)) for x in v]
 
 
-def record(rng, lut_name):
+LAWS = ["double-visc", "double-flow", "rescale", "split", "temperature-array",
+        "repeat", "pixelation", "pixelation-split", "medium-spelling"]
+
+
+def record(rng, lut_name, law=None, spelling=None):
     """one pair of calls on a built-in LUT related by a law"""
     from dclab.features.emodulus import get_emodulus
     import warnings
@@ -169,9 +173,8 @@ def record(rng, lut_name):
     defo = rs.uniform(0.005, 0.12, n)
     base = dict(channel_width=cw, flow_rate=0.04 * (cw / 20.0) ** 3,
                 px_um=0.0, lut_data=lut_name)
-    law = rng.choice(["double-visc", "double-flow", "rescale", "split",
-                      "temperature-array", "repeat", "pixelation",
-                      "pixelation-split"])
+    if law is None:
+        law = rng.choice(LAWS)
 
     def call(d, x, **kw):
         k = dict(base)
@@ -210,6 +213,19 @@ def record(rng, lut_name):
                 kw = dict(medium="CellCarrier", visc_model="buyukurganci-2022")
                 a = call(defo, x, temperature=23.5, **kw)
                 b = call(defo, x, temperature=np.full(n, 23.5), **kw)
+            elif law == "medium-spelling":
+                # every documented name of a medium, in the given and in
+                # all-lower-case spelling, selects the same viscosity
+                from dclab.features.emodulus import viscosity
+                pairs = [(g, nm2) for g in sorted(viscosity.SAME_MEDIA)
+                         for nm in viscosity.SAME_MEDIA[g]
+                         for nm2 in (nm, nm.lower())]
+                group, name = pairs[rng.randrange(10**6) % len(pairs)] \
+                    if spelling is None else pairs[spelling % len(pairs)]
+                rec["spelling"] = [group, name]
+                kw = dict(temperature=23.5, visc_model="buyukurganci-2022")
+                a = call(defo, x, medium=group, **kw)
+                b = call(defo, x, medium=name, **kw)
             elif law == "pixelation":
                 # the documented pixelation correction: the deformation is
                 # reduced by the published delta before the look-up
@@ -280,9 +296,15 @@ def main(tier, seed, replay=None):
                 rep.violation(sig, detail, case, size=len(case["batch"]))
         rng = random.Random(seed * 389 + 5)
         luts = ["LE-2D-FEM-19", "HE-2D-FEM-22", "HE-3D-FEM-22"]
-        jobs = [(random.Random(rng.randrange(2**31)), luts[i % 3])
-                for i in range(24 if q else 240)]
-        recs = par.pmap(lambda j: record(j[0], j[1]), jobs, chunk=1)
+        # every law on every built-in table (parameters drawn at random)
+        jobs = [(random.Random(rng.randrange(2**31)), lut, law, None)
+                for _ in range(1 if q else 9) for lut in luts
+                for law in LAWS]
+        # every documented spelling of every medium (tables in turn)
+        for k in range(40 if q else 120):
+            jobs.append((random.Random(rng.randrange(2**31)), luts[k % 3],
+                         "medium-spelling", k))
+        recs = par.pmap(lambda j: record(*j), jobs, chunk=4)
         res2, okset, rej = tracecheck.validate("EmodulusTrace", TRACE, recs,
                                                workers=2)
         ev.add_tlc("EmodulusTrace (%d recorded call pairs)" % len(recs),
